@@ -253,6 +253,12 @@ MUTANTS = [
 
 # Behaviour-preserving edits that must NOT raise an alarm: (name, property, file, [(old, new), ...])
 BENIGN = [
+    ("benign-unwind-clear-by-index", "C04", "crates/runtime/src/vm.rs",
+     [("                    if let [.., caller, _] = self.call_stack.as_mut_slice() {\n                        caller.return_value_register = None;\n                    }\n",
+       "                    let depth = self.call_stack.len();\n                    if depth >= 2 {\n                        self.call_stack[depth - 2].return_value_register = None;\n                    }\n")]),
+    ("benign-display-error-explicit-arm", "C08", "crates/runtime/src/vm.rs",
+     [("                let mut display_context = DisplayContext::with_vm(self);\n                // Errors come from `@display` functions of contained values, so they're passed on\n                // as they are (a thrown value stays catchable, a timeout stays uncatchable).\n                other.display(&mut display_context)?;\n                self.set_register(result, display_context.result().into());\n                Ok(())\n",
+       "                let mut display_context = DisplayContext::with_vm(self);\n                match other.display(&mut display_context) {\n                    Ok(_) => {\n                        self.set_register(result, display_context.result().into());\n                        Ok(())\n                    }\n                    Err(error) => Err(error),\n                }\n")]),
     ("benign-rename-nested-args", "C05", "crates/bytecode/src/compiler.rs",
      [("elements: nested_args,\n                ..\n            } => {\n                self.push_span(ctx.node_with_span(arg), ctx.ast);\n\n                // Nested args are accessed with signed 8-bit indices\n                if nested_args.len() > i8::MAX as usize {\n                    return self.error(ErrorKind::FunctionPropertyLimit {\n                        property: \"nested args\".into(),\n                        amount: nested_args.len(),\n                    });\n                }\n\n                let (size_op, size_to_check) = args_size_op(nested_args, ctx.ast);\n                self.push_op(size_op, &[arg_register, size_to_check as u8]);\n                self.compile_unpack_nested_args_of_tuple(arg_register, nested_args, ctx)?;",
        "elements: inner,\n                ..\n            } => {\n                self.push_span(ctx.node_with_span(arg), ctx.ast);\n\n                // Nested args are accessed with signed 8-bit indices\n                if inner.len() > i8::MAX as usize {\n                    return self.error(ErrorKind::FunctionPropertyLimit {\n                        property: \"nested args\".into(),\n                        amount: inner.len(),\n                    });\n                }\n\n                let (size_op, size_to_check) = args_size_op(inner, ctx.ast);\n                self.push_op(size_op, &[arg_register, size_to_check as u8]);\n                self.compile_unpack_nested_args_of_tuple(arg_register, inner, ctx)?;")]),
